@@ -6,7 +6,7 @@ DISC = ["connect", "discover", "disconnect"]
 CORE = {
     "C01": {
         "approval": True,     # writes that wait for the application's approval: exactly one result each
-        "checked": ["out", "panic", "dupout", "rdata", "data"],
+        "checked": ["out", "panic", "dupout", "rdata", "data", "late"],
         "assumptions": [
             "the datagram is well formed: one command, classifier present, classifier and payload consistent (a result carries resultData, a request does not); the rest belongs to C05",
             "the source feature is an announced feature of a connected peer",
@@ -35,7 +35,7 @@ CORE = {
     "C09": {
         "pair_probes": "bind,unbind,entrem,disconnect",     # a registry operation parked mid-way, another peer's operation meanwhile: serial outcome
         "race": True,
-        "checked": ["binds", "out", "ev", "ret", "panic", "dupout", "dupev", "ids"],
+        "checked": ["binds", "out", "ev", "ret", "panic", "dupout", "dupev", "ids", "late"],
         "assumptions": [
             "peers announce distinct device addresses and use identical entity/feature numbering",
             "a request names the requesting peer's own device address or omits it (SPINE 7.4.4); another device's address is outside the domain",
@@ -62,7 +62,7 @@ CORE = {
         },
     },
     "C06": {
-        "checked": ["known", "ev", "out", "subs", "binds", "csub", "cbind", "conn", "rdata", "panic", "dupout", "dupev", "resolve", "tree"],
+        "checked": ["known", "ev", "out", "subs", "binds", "csub", "cbind", "conn", "rdata", "panic", "dupout", "dupev", "resolve", "tree", "late"],
         "assumptions": [
             "every discovery reply and full notification contains entity [0] with the node management feature (without it the peer's node management is wiped: a robustness input, C05)",
             "an entity appears at most once per message; a feature's type and role are fixed per address, its description and operations vary (two versions)",
@@ -72,7 +72,8 @@ CORE = {
         "quick": {
             "mc": [{"acts": ["connect", "disconnect", "ann"], "peers": ["p1"], "maxlen": 3},
                    {"acts": ["ann", "sub", "bind", "lsub"], "tiny": ["ann", "sub", "bind"], "maxlen": 4, "prefix": "PrefixP1"}],
-            "gen": [{"acts": ["ann"], "maxlen": 3, "prefix": "PrefixP1"},
+            "gen": [{"acts": DISC + ["entrem", "entadd"], "maxlen": 5, "peers": ["p1"], "view": None},
+                    {"acts": ["ann"], "maxlen": 3, "prefix": "PrefixP1"},
                     {"acts": ["ann", "sub", "bind", "lsub", "lbind"], "tiny": ["ann", "sub", "bind"], "maxlen": 3, "prefix": "PrefixP1P2"},
                     {"acts": ["connect", "ann"], "tiny": ["ann"], "maxlen": 3},
                     # address variants (device part omitted) with client-side references in place
@@ -94,7 +95,7 @@ CORE = {
         },
     },
     "C14": {
-        "checked": ["cbf", "dupcb", "ret", "reqs", "out", "rdata", "panic", "dupout"],
+        "checked": ["cbf", "dupcb", "ret", "reqs", "out", "rdata", "panic", "dupout", "late"],
         "assumptions": [
             "distinct callbacks are distinct function literals (the stack identifies 'the same callback' by code pointer)",
             "replies and results carry a msgCounterReference; message counters of different connections are kept apart by the harness so that a reference identifies one request",
@@ -123,7 +124,7 @@ CORE = {
     },
     "C20": {
         "race": True,
-        "checked": ["ucs", "hasuc", "out", "ret", "panic", "dupout"],
+        "checked": ["ucs", "hasuc", "out", "ret", "panic", "dupout", "late"],
         "assumptions": [
             "sequential histories through SpineCore; all interleavings of two (thorough: three) concurrent read-modify-write cycles on different entities are forced through the gate between copy and store (CheckThenAct)",
             "2 entities x 2 actors x 2 names x 2 versions x availability x 2 scenario lists",
@@ -149,7 +150,7 @@ CORE = {
     },
     "C08": {
         "pair_probes": "sub,unsub,entrem,disconnect",     # a registry operation parked mid-way, another peer's operation meanwhile: serial outcome
-        "checked": ["subs", "out", "ev", "ret", "panic", "dupout", "dupev", "ids"],
+        "checked": ["subs", "out", "ev", "ret", "panic", "dupout", "dupev", "ids", "late"],
         "assumptions": [
             "peers announce distinct device addresses and use identical entity/feature numbering",
             "a request names the requesting peer's own device address or omits it (SPINE 7.4.4); a delete naming another peer's device is outside the domain",
@@ -216,7 +217,7 @@ CORE = {
     },
     "C03": {
         "pair_probes": "bind,unbind,entrem,disconnect",     # a registry operation parked mid-way, another peer's operation meanwhile: serial outcome
-        "checked": ["data", "out", "ev", "ret", "panic", "dupout", "dupev"],
+        "checked": ["data", "out", "ev", "ret", "panic", "dupout", "dupev", "late"],
         "assumptions": [
             "the writer is an announced feature of a connected peer or an unannounced address of a connected peer (then the write is dropped)",
             "writes are full writes of a one-item list whose item is changeable (write shapes and write protection belong to C04)",
@@ -225,7 +226,8 @@ CORE = {
         "quick": {
             "mc": [{"acts": DISC + ["bind", "unbind", "entrem", "entadd", "write", "sub"], "maxlen": 6},
                    {"acts": ["bind", "unbind", "write", "disconnect"], "rich": ["write"], "maxlen": 3, "prefix": "PrefixP1P2"}],
-            "gen": [{"acts": ["bind", "unbind", "disconnect", "entrem", "entadd", "write", "sub"], "maxlen": 3, "prefix": "PrefixP1P2"},
+            "gen": [{"acts": ["bind", "unbind", "write", "disconnect", "connect", "discover"], "tiny": ["bind", "unbind"], "maxlen": 5, "peers": ["p1"], "prefix": "PrefixP1", "ghost": 2},
+                    {"acts": ["bind", "unbind", "disconnect", "entrem", "entadd", "write", "sub"], "maxlen": 3, "prefix": "PrefixP1P2"},
                     {"acts": ["bind", "write"], "rich": ["write"], "maxlen": 2, "prefix": "PrefixP1"},
                     {"acts": DISC + ["bind", "unbind", "entrem", "write"], "maxlen": 5, "prefix": "PrefixP1", "ghost": 2}],
             "sim": [{"acts": DISC + ["bind", "unbind", "entrem", "entadd", "write", "sub", "setdata"], "rich": ["disconnect"], "maxlen": 25, "num": 200}],
